@@ -61,3 +61,12 @@ package verifspec
 //@ property C08
 //@   param x: iface
 //@   throws_if !x.$nil && !x.constructor.comparable
+
+// ch <- v (goroutines.js $send): sending on a closed channel causes a run-time panic.  One-directional (`throws_when`):
+// the function is checked up to the point where it leaves the JavaScript subset (the parking of the goroutine: closures,
+// $curGoroutine), which is abstracted; a closed channel never gets that far.
+//@ js goroutines.js $send
+//@ property C08
+//@   param chan: chan, value: num
+//@   abstract_rest
+//@   throws_when chan.$closed
